@@ -158,6 +158,12 @@ func (w *world) oracle(hp *hpeer, kind string, e opEnv, m protocol.Message, msgs
 	if n := len(post.Upload); n > reqQ+o.slack {
 		viol("queue-unbounded:"+site, fmt.Sprintf("%d requests queued (limit %d + %d congested head-drops)", n, reqQ, o.slack))
 	}
+	// ... and so is everything else the peer keeps: every slice, map and channel reachable
+	// from the Peer struct (items.go), whatever its name.  The constant allows for a full
+	// writer channel and a few odds and ends; nothing the remote sends may move it.
+	if total, detail := queuedItems(hp.p); total > reqQ+o.slack+hp.cap+16 {
+		viol("queue-unbounded:any-field", fmt.Sprintf("%d items held by the peer (%s), limit %d + %d congested head-drops + writer capacity %d + 16", total, detail, reqQ, o.slack, hp.cap))
+	}
 	if mm, ok := m.(protocol.Request); ok && mm.Length > maxReqLen {
 		n := len(post.Upload)
 		accepted := n > 0 && (n > len(pre.Upload) || len(pre.Upload) >= reqQ) &&
